@@ -14,6 +14,7 @@
     §3  completion under explicit well-formedness (`C01_completes_partial`)
     §4  ECDSA on the pinned tree (finding F4)
     §5  non-vacuity examples
+    §6  completion from a store-level description of the token (`HealthyWorld`, `C01_completes`)
 -/
 import Kskm.Signer
 import KskmProofs.Lemmas.TokM
@@ -25,6 +26,8 @@ import KskmProofs.Lemmas.SignerEc
 import KskmProofs.C14
 import KskmProofs.C15
 import KskmProofs.C02
+import KskmProofs.Lemmas.SignerComplete
+import KskmProofs.Lemmas.SignerCompleteExample
 namespace Kskm.C01
 
 /-- uniqueness by public key: adding never creates two entries with the same public key text -/
@@ -203,19 +206,21 @@ theorem C01_verified_again (ext : Externals) (mods : List P11Module) (cfg : Sign
 
 /-! ## §3 Completion
 
-Full statement (DESIGN §4/C01 `C01_completes`), NOT proved here:
+Full statement (DESIGN §4/C01 `C01_completes`):
 
     for a token described at store level (modules → slots → objects with attributes) on which every
     key named by the schema is configured, inside its validity window and present with parameters
     matching the configuration, a healthy signature scheme, per bundle equal ZSK / signing-key
     algorithm sets and times that pack into 32 bits,  `signBundles` returns `ok`.
 
-Proved: `C01_completes_partial`, which starts AFTER the three `_fetch_keys` calls of a slot — their
+It is proved for RSA keys in §6 (`C01_completes`, from the store-level hypothesis `HealthyWorld`).
+This section proves, for EVERY token, the part after the fetches.
+
+Proved here: `C01_completes_partial`, which starts AFTER the three `_fetch_keys` calls of a slot — their
 results are hypotheses — and shows that everything the signer itself does then goes through.
-Missing for the full statement: the forward (success) direction of `fetchKeys` / `loadPkcs11Key` /
-`getP11Key` / `findInSlots` / `p11ObjectToPublicKey` / `validateDnskeyMatchesKsk` from a store-level
-description of the token (the lookup side belongs to C15/C04; only the inversion direction of
-`fetchKeys` is proved in `Lemmas/SignerInv.lean`), and the lifting from one slot to `signBundles`. -/
+The forward (success) direction of `fetchKeys` / `loadPkcs11Key` / `getP11Key` / `findInSlots` /
+`p11ObjectToPublicKey` / `validateDnskeyMatchesKsk` from a store-level description of the token, and
+the lifting from one slot to `signBundles`, are in §6 and Lemmas/SignerComplete.lean. -/
 
 /-- `make_raw_rrsig` succeeds EXACTLY when type, algorithm, labels, TTL, the two times (in seconds)
     and the tag pack into their wire fields (times and TTL: 32 bits), the signer name is the root, and
@@ -494,5 +499,140 @@ example : WellFormed exExt exCfg exBundle exKeys [⟨exPriv, exDns⟩] exTok2 0 
     exact ⟨[1, 2, 3], rfl, rfl⟩
 
 end Examples
+
+/-! ## §6 Completion from a store-level description of the token
+
+`C01_completes_partial` (§3) starts after the three `_fetch_keys` calls.  Here the fetches are
+derived as well, from a description of the token at store level, for RSA keys.
+
+The token is `signingToken st ok sg` (Lemmas/SignerComplete.lean): the store-backed token
+`storeToken st ok` of C15 / C04 — `findObjects` filters the objects of a slot on label and class,
+`getAttr` reads the attributes of a stored object, answers independent of the operation index —
+which in addition answers `C_Sign(module, slot, handle, mechanism, data)` with
+`sg module slot handle mechanism data`.  `loc label` says where a label lives (`KeyLoc`: module, slot,
+public and private object, modulus, exponent, RFC 3110 encoding).
+
+Hypotheses, all explicit:
+
+* `HealthyBase ext cfg` — signer name is the root; the KSK TTL packs into 32 bits; the hash oracle
+  answers.
+* per request bundle `i`, for the action `act` of slot `i + 1`, `HealthyAction … b act`:
+  - `names`: every name under publish / revoke / sign is a configured KSK (`HealthyName`) whose window
+    contains the bundle (`C04.InWindow`), that is on the token once (`OnToken`: in module order and
+    session-slot order the first slot holding the label holds exactly one public and one private RSA
+    object, both with readable modulus and exponent), with the configured algorithm family, size and
+    exponent (`RsaConfigured`), and whose configured key tag / DS digest match (`identity`);
+  - `labelAlg`, `distinctKeys`: a label is configured with one algorithm; different labels are
+    different key material (otherwise the record published under a key text need not be the
+    signer's, cf. C02 §8);
+  - `zsks`, `zskIds`, `zskNotKsk`, `zskRdata`: the request bundle has keys, with pairwise different
+    identifiers, none equal to a KSK label, with decodable RDATA of bounded length;
+  - `algs`: ZSK algorithm set = algorithm set of the keys under `sign`;
+  - `expiration`, `inception`: the two times pack into 32 bits;
+  - `signs`: the scheme is healthy — the software verifier accepts what the token answers, under the
+    key text derived from the private object, over the octets that were formatted.
+
+Missing from the full statement of DESIGN §4/C01: EC keys (finding F4 concerns them anyway) and
+tokens whose private objects lack readable public attributes (the second lookup of
+`load_pkcs11_key`; `OnToken.rsa` asks for modulus and exponent on both objects); `create_skr`'s
+policy assembly after `sign_bundles` (`kskSignaturePolicy`, which needs every published key to be RSA)
+is not covered either. -/
+
+/-- a request all of whose bundles meet a healthy action of the schema -/
+structure HealthyWorld (ext : Externals) (st : Store) (sg : String → Nat → Nat → Nat → Bytes → Bytes)
+    (mods : List P11Module) (cfg : SignerConfig) (loc : String → KeyLoc) (req : Request) : Prop where
+  base : HealthyBase ext cfg
+  /-- the schema has an action for the slot of every request bundle, healthy for that bundle -/
+  slots : ∀ i b, req.bundles[i]? = some b →
+    ∃ act, cfg.actions.lookup (i + 1) = some act ∧ HealthyAction ext st sg mods cfg loc b act
+
+/-- **Completion, one slot.** On the store-backed signing token, from any token state, a healthy
+    action signs its bundle: `signBundle` returns a response bundle (fetches, key set, signing loop,
+    algorithm agreement and response-side re-validation all pass). -/
+theorem C01_completes_slot (ext : Externals) (st : Store) (ok : String → Nat → Bool)
+    (sg : String → Nat → Nat → Nat → Bytes → Bytes) (mods : List P11Module) (cfg : SignerConfig)
+    (loc : String → KeyLoc) (slot : Nat) (b : Bundle) (act : SchemaAction) (hb : HealthyBase ext cfg)
+    (hact : cfg.actions.lookup slot = some act) (ha : HealthyAction ext st sg mods cfg loc b act)
+    (s : TokState) :
+    ∃ rb s', signBundle ext mods cfg slot b (signingToken st ok sg) s = (.ok rb, s') := by
+  obtain ⟨pub, rev, signing, revoked, s1, s2, s3, hpub, hrev, hrevoked, hsign, halgs, hidalg, hnd, hready⟩ :=
+    healthyAction_ready ext st ok sg mods cfg loc b act hb ha s
+  refine C01_completes_partial ext mods cfg slot b _ s s1 s2 s3 act pub rev signing revoked hact hpub hrev
+    hrevoked hsign ⟨hb.root, ha.zsks, halgs, hidalg, hnd, ?_⟩
+  intro sk hsk
+  obtain ⟨dnsKey, pk, raw, d, hdl, h1, h2, h3, h4, h5, h6, h7, h8, h9, h10, h11, h12⟩ := hready sk hsk
+  exact ⟨dnsKey, pk, raw, d, hdl, h1, h2, h3, h4, h5, h6, h7, h8, h9, h10, h11,
+    fun n _ => h12 n (Nat.zero_le n)⟩
+
+/-- **C01_completes.** In a healthy world `sign_bundles` returns a response for the whole request —
+    any number of bundles, from any token state — with one response bundle per request bundle; by
+    `C01_all_bundles` every signature in it meets `SigSpec`. -/
+theorem C01_completes (ext : Externals) (st : Store) (ok : String → Nat → Bool)
+    (sg : String → Nat → Nat → Nat → Bytes → Bytes) (mods : List P11Module) (cfg : SignerConfig)
+    (loc : String → KeyLoc) (req : Request) (hw : HealthyWorld ext st sg mods cfg loc req) (s : TokState) :
+    ∃ rbs s', signBundles ext mods cfg req (signingToken st ok sg) s = (.ok rbs, s') ∧
+      rbs.length = req.bundles.length := by
+  have key : ∀ (bs : List Bundle) (n : Nat) (s : TokState),
+      (∀ i b, bs[i]? = some b → ∃ act, cfg.actions.lookup (n + i) = some act ∧
+        HealthyAction ext st sg mods cfg loc b act) →
+      ∃ rbs s', signBundlesFrom ext mods cfg n bs (signingToken st ok sg) s = (.ok rbs, s') := by
+    intro bs
+    induction bs with
+    | nil => intro n s _; exact ⟨[], s, by simp [signBundlesFrom_nil]⟩
+    | cons b rest ih =>
+      intro n s h
+      obtain ⟨act, hact, ha⟩ := h 0 b rfl
+      obtain ⟨rb, s1, hrb⟩ := C01_completes_slot ext st ok sg mods cfg loc n b act hw.base hact ha s
+      obtain ⟨more, s2, hmore⟩ := ih (n + 1) s1 (by
+        intro i b' hb'
+        have := h (i + 1) b' (by simpa using hb')
+        rwa [show n + (i + 1) = n + 1 + i by omega] at this)
+      refine ⟨rb :: more, s2, ?_⟩
+      rw [signBundlesFrom_cons]
+      simp only [TokM.bind_eq, hrb, hmore, TokM.pure_run]
+  obtain ⟨rbs, s', h⟩ := key req.bundles 1 s (by
+    intro i b hb
+    have := hw.slots i b hb
+    rwa [Nat.add_comm] at this)
+  exact ⟨rbs, s', h, (signBundlesFrom_ok h).1⟩
+
+/-! ### Non-vacuity of §6
+
+The world of Lemmas/SignerCompleteExample.lean: two modules (the first holds nothing), three session
+slots (slot 0 a foreign key, slot 1 the RSA key pairs "KA" and "KB", slot 2 another "KA" object that
+is never reached); KSK "a" with window, size, exponent and key tag configured and hashing on the
+token, KSK "b" hashing on the host; schema slot 1 = publish a b / sign a / revoke b, slot 2 =
+publish a / sign a a; a request with two bundles of two and one ZSKs. -/
+
+section WorldExample
+open HealthyExample
+
+/-- the hypotheses of `C01_completes` are satisfiable -/
+theorem healthyWorld_example : HealthyWorld ext store sg mods cfg loc req where
+  base := base
+  slots := by
+    intro i b hb
+    match i, hb with
+    | 0, hb =>
+      simp only [req, List.getElem?_cons_zero, Option.some.injEq] at hb
+      subst hb
+      exact ⟨act1, by decide, healthyAction1⟩
+    | 1, hb =>
+      simp only [req, List.getElem?_cons_succ, List.getElem?_cons_zero, Option.some.injEq] at hb
+      subst hb
+      exact ⟨act2, by decide, healthyAction2⟩
+    | i + 2, hb => simp [req] at hb
+
+/-- … and its conclusion on that world: both bundles are signed -/
+example : ∃ rbs s', signBundles ext mods cfg req (signingToken store (fun _ _ => true) sg) {} = (.ok rbs, s') ∧
+    rbs.length = 2 :=
+  C01_completes ext store (fun _ _ => true) sg mods cfg loc req healthyWorld_example {}
+
+/-- cross-check by evaluation of the model: slot 1 publishes "KA", "KB" revoked and the two ZSKs with
+    one signature, slot 2 publishes "KA" and the ZSK with one signature (the repeated name signs once) -/
+example : (signBundles ext mods cfg req (signingToken store (fun _ _ => true) sg) {}).1.map
+    (·.map fun b => (b.keys.length, b.signatures.length)) = .ok [(4, 1), (2, 1)] := by decide +kernel
+
+end WorldExample
 
 end Kskm.C01
